@@ -64,8 +64,9 @@ PLAN = {
     'C12': {
         'inv': ['C12_Isolation'],
         # random tier: arbitrary frames of the offender (FuzzOK per step)
-        'walks': [('hostile_fuzz', 400, 8000, 60),
-                  ('hostile_fuzz_mp', 150, 3000, 60)],
+        # (TLC re-executes ~10^4 such steps a minute)
+        'walks': [('hostile_fuzz', 400, 2000, 60),
+                  ('hostile_fuzz_mp', 150, 800, 60)],
         'walk_inv': [],
         'quick': ['hostile_quick', 'hostile_mp_quick'],
         'thorough': ['hostile_quick', 'hostile_mp_quick', 'hostile_t'],
